@@ -246,6 +246,14 @@ func famMulti(r *Rand, thorough bool) *seqScenario {
 	}
 	for i := 1; i < n; i++ {
 		b.cmd(seqCmd{Op: "start", Inst: i})
+		if r.Chance(50) {
+			// the new instance's start races with a whole round of instance 0, at every point of the load
+			b.cmd(seqCmd{Op: "run", Inst: i, Max: 1 + r.Intn(3)})
+			b.submitNoRun(0, 1+r.Intn(2))
+			b.cmd(seqCmd{Op: "clock", V: 1 + int64(r.Intn(20))})
+			b.cmd(seqCmd{Op: "round", Inst: 0})
+			b.cmd(seqCmd{Op: "run", Inst: 0})
+		}
 		b.cmd(seqCmd{Op: "run", Inst: i})
 	}
 	steps := 20 + r.Intn(40)
@@ -429,6 +437,86 @@ func famStartup(r *Rand) *seqScenario {
 	return b.sc
 }
 
+// famRunseq: the real RunSequencer loop (own ticker) on one or two instances; oracle-only.
+func famRunseq(r *Rand) *seqScenario {
+	pool := []int{0, 0, 2, 3}[r.Intn(4)]
+	b := newScb("runseq", pool, r)
+	b.boot(0)
+	two := r.Chance(40)
+	if two {
+		b.cmd(seqCmd{Op: "start", Inst: 1})
+		b.cmd(seqCmd{Op: "run", Inst: 1})
+	}
+	stall := int64(0)
+	if r.Chance(15) {
+		stall = 1
+	}
+	b.cmd(seqCmd{Op: "runseq", Inst: 0, V: stall})
+	if two {
+		b.cmd(seqCmd{Op: "runseq", Inst: 1})
+	}
+	var ids []int
+	for k := 0; k < 4+r.Intn(8); k++ {
+		switch r.Intn(6) {
+		case 0, 1, 2:
+			e := b.small()
+			ids = append(ids, e)
+			b.cmd(seqCmd{Op: "submit", Inst: 0, Entry: e, Low: r.Chance(30)})
+		case 3:
+			if len(ids) > 0 {
+				b.cmd(seqCmd{Op: "submit", Inst: 0, Entry: ids[r.Intn(len(ids))]})
+			}
+		}
+		f := map[string]string{}
+		if r.Chance(10) {
+			f["0"] = []string{"errA", "errN", "errAd", "errNd"}[r.Intn(4)]
+		}
+		b.cmd(seqCmd{Op: "run", Inst: 0, Max: 1 + r.Intn(6), Faults: f})
+		if two && r.Chance(60) {
+			b.cmd(seqCmd{Op: "run", Inst: 1, Max: 1 + r.Intn(3)})
+		}
+	}
+	if r.Chance(60) {
+		b.cmd(seqCmd{Op: "stopseq", Inst: 0})
+	} else {
+		b.cmd(seqCmd{Op: "run", Inst: 0, Max: 8, Faults: map[string]string{fmt.Sprint(r.Intn(3)): "errN"}})
+	}
+	// submissions after a stop must fail; nothing may be committed any more
+	for k := 0; k < 2; k++ {
+		b.cmd(seqCmd{Op: "submit", Inst: 0, Entry: b.small()})
+	}
+	b.cmd(seqCmd{Op: "run", Inst: 0, Max: 6})
+	if two {
+		b.cmd(seqCmd{Op: "run", Inst: 1, Max: 10})
+		b.cmd(seqCmd{Op: "stopseq", Inst: 1})
+	}
+	return b.sc
+}
+
+// famIssuerRace: two submissions sharing a never-seen issuer, the first one's issuer upload still in flight
+// while a round sequences the pool.
+func famIssuerRace(r *Rand) *seqScenario {
+	b := newScb("issuerrace", 0, r)
+	b.boot(0)
+	b.grow(0, r.Intn(3))
+	iss := 10 + r.Intn(5)
+	e1 := b.entry(seqEntrySpec{Kind: "rand", Issuers: []int{iss}})
+	e2 := b.entry(seqEntrySpec{Kind: "rand", Issuers: []int{iss}})
+	b.cmd(seqCmd{Op: "submit", Inst: 0, Entry: e1})
+	if r.Chance(50) {
+		b.cmd(seqCmd{Op: "step", Inst: 0, Pick: 0}) // the fetch (not found); the upload is now parked
+	}
+	b.cmd(seqCmd{Op: "submit", Inst: 0, Entry: e2})
+	b.cmd(seqCmd{Op: "clock", V: 5})
+	b.cmd(seqCmd{Op: "round", Inst: 0})
+	for k := 0; k < 9; k++ {
+		b.cmd(seqCmd{Op: "step", Inst: 0, Pick: 1}) // operations of the round, not of the parked submission
+	}
+	b.cmd(seqCmd{Op: "run", Inst: 0})
+	b.roundOK(0)
+	return b.sc
+}
+
 // ---- engine
 
 func genScenarios(o *Opts, r *Rand) []*seqScenario {
@@ -441,14 +529,14 @@ func genScenarios(o *Opts, r *Rand) []*seqScenario {
 	}
 	fam := func(names ...string) bool {
 		want := map[string][]string{
-			"C01": {"basic", "fault", "clock", "crash"},
+			"C01": {"basic", "fault", "clock", "crash", "runseq"},
 			"C02": {"basic", "fault", "dup", "crash", "pool"},
 			"C03": {"crash", "fault"},
-			"C04": {"basic", "fault", "crash"},
-			"C06": {"multi", "startup"},
+			"C04": {"basic", "fault", "crash", "issuerrace"},
+			"C06": {"multi", "startup", "runseq"},
 			"C07": {"dup", "pool"},
 			"C08": {"tamper"},
-			"C17": {"pool", "fault"},
+			"C17": {"pool", "fault", "runseq"},
 		}[o.Prop]
 		if want == nil {
 			return true
@@ -476,9 +564,12 @@ func genScenarios(o *Opts, r *Rand) []*seqScenario {
 		for _, base := range bases {
 			for _, pool := range []int{0, 1, 3} {
 				for k := 0; k < 9; k++ {
-					for _, kind := range []string{"errA", "errN"} {
+					for ki, kind := range []string{"errA", "errN"} {
 						if !thorough && (k+base+pool)%3 != 0 && base != 255 {
 							continue
+						}
+						if (k+base+pool+ki)%2 == 0 {
+							kind += "d" // the error wraps context.DeadlineExceeded
 						}
 						add(famFault(r.Fork(), base, pool, k, kind, -1, ""))
 					}
@@ -537,6 +628,16 @@ func genScenarios(o *Opts, r *Rand) []*seqScenario {
 	if fam("pool") {
 		for i := 0; i < 40*mul; i++ {
 			add(famPool(r.Fork()))
+		}
+	}
+	if fam("runseq") {
+		for i := 0; i < 25*mul; i++ {
+			add(famRunseq(r.Fork()))
+		}
+	}
+	if fam("issuerrace") {
+		for i := 0; i < 12*mul; i++ {
+			add(famIssuerRace(r.Fork()))
 		}
 	}
 	if fam("tamper") {
